@@ -144,6 +144,9 @@ def run_split(cmd, tmo, workdir, be, ngroups):
         TIMINGS.append((round(dt, 1), g[0], len(g)))
         if rc is None:
             return None, g, ["timeout on " + ",".join(g[:3])]
+        if rc not in (0, 10):
+            # cbmc aborted (out of memory, internal error): whatever it printed is not a verdict
+            return None, g, ["cbmc exit code %s on group %s" % (rc, ",".join(g[:2]))]
         results, msgs, status = parse_cbmc_json(outp)
         return results, g, msgs
 
